@@ -5,6 +5,7 @@
 package builder
 
 import (
+	"regexp"
 	"slices"
 	"strings"
 
@@ -38,18 +39,18 @@ func (b Enforce) Apply(opt *Option, profile string) (string, error) {
 		return profile, nil
 	}
 
-	flags := strings.Split(matches[1], ",")
+	flags := splitFlags(matches[1])
 	idx := slices.Index(flags, "complain")
 	if idx == -1 {
 		return profile, nil
 	}
 	flags = slices.Delete(flags, idx, idx+1)
-	strFlags := "{\n"
-	if len(flags) >= 1 {
-		strFlags = " flags=(" + strings.Join(flags, ",") + ") {\n"
-	}
-
 	// Remove all flags definition, then set new flags
 	profile = regFlags.ReplaceAllLiteralString(profile, "")
+	if len(flags) == 0 {
+		// One blank before the brace, however the header was spaced
+		return regexp.MustCompile(`[\t ]*{\n`).ReplaceAllLiteralString(profile, " {\n"), nil
+	}
+	strFlags := " flags=(" + strings.Join(flags, ",") + ") {\n"
 	return regProfileHeader.ReplaceAllLiteralString(profile, strFlags), nil
 }
